@@ -61,7 +61,7 @@ theorem roots_get {pb : Problem} {c r : Nat} :
       simp [ht]
 
 /-- What `DivisionOK` on the grid graph says, in cell coordinates. -/
-theorem divisionOK_iff {pb : Problem} (hwf : WellFormed pb) (σ : Asg) :
+theorem divisionOK_iff {pb : Problem} (_hwf : WellFormed pb) (σ : Asg) :
     DivisionOK (Graph.grid pb.height pb.width) (labOf σ (dvs pb)) (K pb + 1) (rootsOf pb) false ↔
       (∀ c : Nat, c ≤ K pb → CellsConnected pb.height pb.width (fun y x => lab pb σ y x = (c : Int))) ∧
       (∀ c : Nat, c ≤ K pb → ∃ y x, y < pb.height ∧ x < pb.width ∧ lab pb σ y x = (c : Int)) ∧
